@@ -75,7 +75,9 @@ func verifFeed(client bool, e *Engine, pieces ...[]byte) (*verifRecorder, error,
 		}
 		buf := make([]byte, len(pc))
 		copy(buf, pc)
+		panics0 := verifPanicCount()
 		err := p.Parse(buf)
+		verifAssertD(verifPanicCount() == panics0, "no-panic-inside-parse", "feed")
 		for i := range buf {
 			buf[i] = 0xEE
 		}
